@@ -225,6 +225,17 @@ impl ServerState {
   }
 }
 
+#[cfg(samlang_verif)]
+impl ServerState {
+  /// Verification hook (C10): edges of the stored dependency graph (forward, reverse).
+  #[allow(clippy::type_complexity)]
+  pub fn verif_dep_graph_edges(
+    &self,
+  ) -> (Vec<(ModuleReference, Vec<ModuleReference>)>, Vec<(ModuleReference, Vec<ModuleReference>)>) {
+    self.dep_graph.verif_edges()
+  }
+}
+
 #[cfg(test)]
 mod tests {
   use super::ServerState;
